@@ -571,18 +571,22 @@ class HelicityAmplitudeBuilder:
     def __generate_amplitude_prefactor(
         self, transition: StateTransition
     ) -> sp.Rational | None:
-        prefactor = get_prefactor(transition)
+        # only the nodes at which this transition is the parity partner of the
+        # transition that defines the coefficient contribute their parity factor
+        prefactor = 1.0
+        for node_id in transition.topology.nodes:
+            parity_prefactor = transition.interactions[node_id].parity_prefactor
+            if parity_prefactor is None:
+                continue
+            raw_suffix = self.naming.generate_two_body_decay_suffix(transition, node_id)
+            if raw_suffix in self.naming.parity_partner_coefficient_mapping:
+                coefficient_suffix = self.naming.parity_partner_coefficient_mapping[
+                    raw_suffix
+                ]
+                if coefficient_suffix != raw_suffix:
+                    prefactor *= parity_prefactor
         if prefactor != 1.0:
-            for node_id in transition.topology.nodes:
-                raw_suffix = self.naming.generate_two_body_decay_suffix(
-                    transition, node_id
-                )
-                if raw_suffix in self.naming.parity_partner_coefficient_mapping:
-                    coefficient_suffix = self.naming.parity_partner_coefficient_mapping[
-                        raw_suffix
-                    ]
-                    if coefficient_suffix != raw_suffix:
-                        return sp.Rational(prefactor)
+            return sp.Rational(prefactor)
         return None
 
 
